@@ -137,6 +137,16 @@ Check C20_mul_rounded_closed_form :
     checked_mul_rounded pf m x y n = Val (cmr_fun m x y n).
 Print Assumptions C20_mul_rounded_closed_form.
 
+(* the recorded finding K1 (integer-operand div_rounded lacks the n <= 18 guard) also breaks profile
+   independence: n + scale is formed in u8, which panics in a dev build and wraps in a release build.
+   7_i64.div_rounded(0.03, 255): panic in dev, a "Decimal" with 255 fractional digits in release *)
+Theorem C20_K1_refuted :
+  known_K1 Bdivr 255 = true /\
+  run_id dev RHalfEven Bdivr I64 7 (mkdec 3 2) 255 = OP /\
+  run_id release RHalfEven Bdivr I64 7 (mkdec 3 2) 255 = OV (mkdec 23 255).
+Proof. vm_compute. repeat split. Qed.
+Print Assumptions C20_K1_refuted.
+
 Example C20_nonvacuous :
   run_dd release RHalfEven Badd (mkdec MAXC 0) (mkdec 1 0) 0 = OP /\
   run_di release RHalfEven Bmul I32 (mkdec MAXC 0) 2 0 = OP /\
